@@ -5,7 +5,7 @@ import re
 from ..core import AnalysisError
 from ..pyfront import unparse, try_const
 from .. import predabs
-from .shared_py import has, stmt_srcs
+from .shared_py import inn,  has, stmt_srcs, contains, module_globals
 
 FIXED, DYNAMIC, UNLIMITED = 0, 1, 2
 
@@ -93,7 +93,7 @@ def stiffness(ctx, L):
             'calc_wire_stiffness|members-first', f.site(), 'member kinds are evaluated before the struct kind', '')
     t = m.func('Typedef.calc_wire_stiffness')
     src = ws(unparse(t.node))
-    L.check('self.kind = Kind.FIXED' in src and 'if self.definition and isinstance(self.lowermost_typedef, Struct): self.kind = self.lowermost_typedef.kind' in src,
+    L.check(inn('self.kind = Kind.FIXED', src) and inn('if self.definition and isinstance(self.lowermost_typedef, Struct): self.kind = self.lowermost_typedef.kind', src),
             'E6.stiffness-join', 'Typedef.calc_wire_stiffness', t.site(),
             'a typedef / member takes the kind of the struct at the end of its definition chain, FIXED otherwise', src)
     es = m.func('evaluate_stiffness_kinds')
@@ -147,11 +147,12 @@ def dynamic_predicates(ctx, L):
 def size_formulas(ctx, L):
     """(d)(h) the model's size rules depend on the documented inputs through the documented aggregators."""
     m = ctx.py.mod('prophyc.model')
+    G = module_globals(m)
     ao = m.func('evaluate_sizes.evaluate_array_and_optional_size')
     src = ws(unparse(ao.node))
-    L.check('if member.is_array and member.byte_size is not None: member.byte_size = member.numeric_size and member.byte_size * member.numeric_size or 0' in src,
+    L.check(contains(src, 'if member.is_array and member.byte_size is not None: member.byte_size = member.numeric_size and member.byte_size * member.numeric_size or 0', G),
             'F16.model-formula', 'array-size', ao.site(), 'array slot = element size x numeric size (0 for dynamic/greedy)', src)
-    L.check('elif member.optional: member.alignment = max(DISC_SIZE, member.alignment) member.byte_size = member.byte_size + member.alignment' in src,
+    L.check(contains(src, 'elif member.optional: member.alignment = max(DISC_SIZE, member.alignment) member.byte_size = member.byte_size + member.alignment', G),
             'F16.model-formula', 'optional-size', ao.site(),
             'optional slot: alignment = max(DISC_SIZE, value alignment), size = value size + that alignment (flag padded to it)', src)
     us = m.func('evaluate_sizes.evaluate_union_size')
@@ -163,7 +164,7 @@ def size_formulas(ctx, L):
              'union size = largest arm + one alignment unit for the discriminator slot'),
             ('round-up', 'node_.byte_size = int((node_.byte_size + node_.alignment - 1) / node_.alignment) * node_.alignment',
              'union size rounded up to its alignment (recognised round-up idiom with consistent operands)')):
-        L.check(piece in src, 'F16.model-formula', 'union-' + k, us.site(), why + ' (expected `%s`)' % piece, src)
+        L.check(contains(src, piece, G), 'F16.model-formula', 'union-' + k, us.site(), why + ' (expected `%s`)' % piece, src)
     ss = m.func('evaluate_sizes.evaluate_struct_size')
     src = ws(unparse(ss.node))
     for k, piece, why in (
@@ -175,7 +176,7 @@ def size_formulas(ctx, L):
              'after a dynamic member of smaller alignment the padding is the marker -alignment, otherwise the static padding goes to the previous member'),
             ('end-pad', 'padding = (alignment - byte_size % alignment) % alignment byte_size += padding', 'end padding up to the struct alignment'),
             ('result', 'node_.byte_size, node_.alignment = (byte_size, alignment)', 'publishes size and alignment')):
-        L.check(piece in src, 'F16.model-formula', 'struct-' + k, ss.site(), why + ' (expected `%s`)' % piece, '')
+        L.check(contains(src, piece, G), 'F16.model-formula', 'struct-' + k, ss.site(), why + ' (expected `%s`)' % piece, '')
     # end padding of a dynamic struct must depend on the last member's size, not only on alignments
     endm = [n for n in ss.walk() if isinstance(n, ast.If) and 'any((is_member_dynamic(m) for m in node_.members))' in ws(unparse(n.test))]
     if len(endm) != 1:
@@ -190,7 +191,7 @@ def size_formulas(ctx, L):
             'codec emits 13 bytes where the documented layout has 16' % ws(unparse(val)), ws(unparse(endm[0])))
     pp = m.func('evaluate_sizes.evaluate_partial_padding_size')
     src = ws(unparse(pp.node))
-    L.check('for part in [x for x in parts][1:]: part[0].alignment = max(part[0].alignment, max((x.alignment for x in part)))' in src,
+    L.check(contains(src, 'for part in [x for x in parts][1:]: part[0].alignment = max(part[0].alignment, max((x.alignment for x in part)))', G),
             'F16.model-formula', 'block-alignment', pp.site(),
             'the first member of every block after a dynamic field is aligned to the maximum alignment in that block', src)
     ns = m.func('evaluate_sizes.evaluate_node_size')
@@ -199,21 +200,21 @@ def size_formulas(ctx, L):
                      ('composite', 'if isinstance(node_, (Struct, Union)): return (node_.byte_size, node_.alignment)'),
                      ('enum', 'elif isinstance(node_, Enum): return (ENUM_SIZE, ENUM_SIZE)'),
                      ('builtin', 'elif node_.type_name in BUILTIN_SIZES: byte_size = BUILTIN_SIZES[node_.type_name] return (byte_size, byte_size)')):
-        L.check(piece in src, 'F16.model-formula', 'node-size-' + k, ns.site(), 'size/alignment of a referenced type (`%s`)' % piece, '')
+        L.check(contains(src, piece, G), 'F16.model-formula', 'node-size-' + k, ns.site(), 'size/alignment of a referenced type (`%s`)' % piece, '')
     ms = m.func('evaluate_sizes.evaluate_member_size')
     src = ws(unparse(ms.node))
-    L.check('elif member.type_name in BUILTIN_SIZES: byte_size = BUILTIN_SIZES[member.type_name] size_alignment = (byte_size, byte_size)' in src
-            and 'elif member.definition: size_alignment = evaluate_node_size(node_=member.definition, parent=node_, member=member)' in src
-            and 'member.byte_size, member.alignment = size_alignment' in src, 'F16.model-formula', 'member-size', ms.site(),
+    L.check(contains(src, 'elif member.type_name in BUILTIN_SIZES: byte_size = BUILTIN_SIZES[member.type_name] size_alignment = (byte_size, byte_size)', G)
+            and contains(src, 'elif member.definition: size_alignment = evaluate_node_size(node_=member.definition, parent=node_, member=member)', G)
+            and contains(src, 'member.byte_size, member.alignment = size_alignment', G), 'F16.model-formula', 'member-size', ms.site(),
             'a member takes the size/alignment of its definition or of its builtin type', '')
     # order of the passes
     es = m.func('evaluate_sizes')
     src = ws(unparse(es.node.body[-1]))
-    L.check('if evaluate_members_sizes(node): [evaluate_array_and_optional_size(mem) for mem in node.members] evaluate_partial_padding_size(node) evaluate_struct_size(node)' in src,
+    L.check(contains(src, 'if evaluate_members_sizes(node): [evaluate_array_and_optional_size(mem) for mem in node.members] evaluate_partial_padding_size(node) evaluate_struct_size(node)', G),
             'F16.pass-order', 'evaluate_sizes|struct', es.site(),
             'passes must run in this order: member sizes, array/optional slot sizes, block alignment bump, struct size (the '
             'block bump must see slot alignments, the struct pass must see bumped alignments)', src[:300])
-    L.check('elif isinstance(node, Union): if evaluate_members_sizes(node): evaluate_union_size(node)' in src, 'F16.pass-order',
+    L.check(contains(src, 'elif isinstance(node, Union): if evaluate_members_sizes(node): evaluate_union_size(node)', G), 'F16.pass-order',
             'evaluate_sizes|union', es.site(), 'union size after member sizes', '')
     em = m.func('evaluate_model')
     L.check([ws(unparse(s)) for s in em.node.body] == ['topological_sort(nodes)', 'constants = cross_reference(nodes, warn_emitter)',
